@@ -6,7 +6,7 @@ import z3
 
 from . import front, smt
 from .values import (SV, SInt, SBool, SReal, SVal, SStr, SNone, SRef, STuple, SLit, SFunc, SClass, SExc,
-                     SSeq, SIterView, Val, NONE, NULL, INT, BOOL, REAL, VAL, STR, Ty, HeapClass,
+                     SSeq, SGen, SIterView, Val, NONE, NULL, INT, BOOL, REAL, VAL, STR, Ty, HeapClass,
                      Unsupported, Inapplicable, State, Fresh, exc_isa)
 from .contract import Ctx, Contract, Loop
 from .exprs import ExprMixin, is_exc
@@ -77,6 +77,7 @@ class Engine(ExprMixin, CallMixin):
         self.cur_contract = None
         self.comp_target_class = None
         self.visited_lines = set()        # line numbers of every statement reached by the symbolic execution
+        self.list_class = None            # HeapClass of the result of list(<generator call>)
         self.set_class = None             # HeapClass of the result of set(opaque iterable)
         self.paths = 0
         self.dropped = []
@@ -159,7 +160,13 @@ class Engine(ExprMixin, CallMixin):
         m = getattr(self, 'st_' + type(node).__name__, None)
         if m is None:
             raise Unsupported('statement %s at line %d' % (type(node).__name__, node.lineno))
-        return m(node, st)
+        res = m(node, st)
+        if not res and not isinstance(node, (ast.For, ast.While)):
+            # a statement executed on a (believed) feasible path must have at least one outcome; none at all means a
+            # contradiction was assumed somewhere (or the path was infeasible all along): never continue silently
+            if self.feasible(st.pc):
+                raise Unsupported('statement at line %d has no outcome on a feasible path' % node.lineno)
+        return res
 
     def st_Expr(self, node, st):
         if isinstance(node.value, ast.Constant):
@@ -638,6 +645,11 @@ class Engine(ExprMixin, CallMixin):
             return dict(n=z3.IntVal(len(items)), get=lambda j: items[self.concrete_int(SInt(j))], facts=[])
         if isinstance(it, SSeq):
             return dict(n=it.n, get=lambda j: self.wrap(it.ety, z3.Select(it.arr, j)), facts=[it.n >= 0])
+        if isinstance(it, SGen):
+            def gget(j):
+                comps = [self.wrap(t, z3.Select(a, j)) for a, t in zip(it.arrays, it.tys)]
+                return comps[0] if len(comps) == 1 else STuple(comps)
+            return dict(n=it.n, get=gget, facts=[it.n >= 0])
         if isinstance(it, SRef) and it.cls.kind == 'list':
             arr, n = self.hload(st, it, 'elems'), self.hload(st, it, 'len')
             return dict(n=n, get=lambda j: self.wrap(it.cls.e, z3.Select(arr, j)), facts=[n >= 0])
@@ -786,7 +798,13 @@ class Engine(ExprMixin, CallMixin):
             bs.note('loop@%d body' % line)
             if is_for:
                 bs.ghost['$iter_index'] = i          # position of the current item in the iterated sequence (for ghost code)
-            for ctrl, val, s2 in self.exec_block(node.body, bs):
+            body_outs = self.exec_block(node.body, bs)
+            if not body_outs:
+                raise Unsupported('the body of the loop at line %d has no outcome at all (every path was dropped)' % line)
+            for ctrl, val, s2 in body_outs:
+                if ctrl in ('next', 'continue'):
+                    self.pending.append(PendingObl('must-fail', 'loop@%d: the end of the body is reachable' % line, s2.pc,
+                                                   z3.BoolVal(False), s2.trace))
                 # loop frame: whatever the loop contract does not list as modified must really be left alone by the body
                 # (otherwise the state after the loop, which keeps those arrays, would ignore the body's effect)
                 if ctrl in ('next', 'continue', 'break'):
